@@ -74,7 +74,7 @@ def bounds(tier):
     q = tier == "quick"
     return {
         "log_messages": 3 if q else 4,
-        "script_events": 6 if q else 8,
+        "script_events": 6 if q else 7,
         "fault_budget": 1 if q else 2,
         "too_small_budget": 1,
         "offsets": "o_1 in [0, 2^62], gaps in [1, 2^40] (symbolic)",
@@ -103,7 +103,7 @@ def jobs(tier):
                         "proc": proc,
                         "acn": acn,
                         "n": 3 if q else 4,
-                        "K": 6 if q else 8,
+                        "K": 6 if q else 7,
                         "faults": 1 if q else 2,
                     }
                 )
